@@ -664,10 +664,20 @@ class OdeSystem(object):
         """Sets the constants in the differential system
         """
         self.__consts = new_constants
+        self.__drop_cached_slopes()
 
     @constants.deleter
     def constants(self):
         self.__consts = dict()
+        self.__drop_cached_slopes()
+
+    def __drop_cached_slopes(self):
+        # The end slope an integrator keeps from its last step (the initial slope of a step that starts where that one
+        # ended) was evaluated with the previous constants, i.e. it is the slope of another right-hand side
+        __integrator = getattr(self, "integrator", None)
+        if __integrator is not None:
+            for __i in [__integrator, *getattr(__integrator, "basis_integrators", [])]:
+                __i.final_rhs = None
 
     @property
     def rtol(self):
